@@ -61,7 +61,16 @@ LinesOK(r) == \E c \in {LinesCtx(r)} :
               /\ (D!DLe(c.dist, tol) \/ D!DLe(D!DMul(D!DSq(D!DSub(c.dist, tol)), c.cr2), D!DSq(wc)))
               /\ D!DWithin(c.dist21, c.dist, tol)
               /\ LenNear(VSub(c.p1, c.p2), c.dist, tol)
-         [] OTHER -> TRUE                                               \* nearly parallel: finite results only
+         [] OTHER ->                                                    \* nearly parallel: the closest points are ill-conditioned, the DISTANCE is not -
+              \* |w . (u x v)| / |u x v| loses one part in sin(angle) of the rounding unit; judged while that leaves two bits
+              LET k2 == Amp(c.cr2, c.uv2, 110)  kh == (k2 + 1) \div 2
+                  sch == Sc(<<c.pos1, c.pos2>>)
+                  tolh == D!DScale(D!DMul(E(t), sch), kh + 2)
+                  wc == DotV(c.w, c.cr)
+              IN  kh + 10 <= (IF t = "f" THEN 23 ELSE 52) =>
+                    /\ D!DLe(D!DSq(wc), D!DMul(D!DSq(D!DAdd(c.dist, tolh)), c.cr2))
+                    /\ (D!DLe(c.dist, tolh) \/ D!DLe(D!DMul(D!DSq(D!DSub(c.dist, tolh)), c.cr2), D!DSq(wc)))
+                    /\ D!DWithin(c.dist21, c.dist, tolh)
 
 PlaneOK(r) ==
     LET t == r.t  n == V(t, r.n)  dist == S(t, r.dist) IN
